@@ -355,7 +355,11 @@ example :
 /-- no item name is reserved: whatever key a filter puts into the event data — also `etype`, `self`,
     `data`, `source`, the parameter names of the `event` / `send` methods on the delivery path — the
     destination handler is called and finds exactly that item, the other items as the rest of the
-    pipeline left them: the data mapping reaches the handler unchanged for EVERY key set -/
+    pipeline left them: the data mapping reaches the handler unchanged for EVERY key set.
+    (The model's destination takes the data as ONE mapping, like the generic `_event(etype, data)`; a
+    specialised `_event_ETYPE(self, *, …, **_data)` handler is called as `handler(self, **data)` and can
+    therefore not receive an item called `self` — Python refuses the call with a TypeError, a parameter
+    error in the sense of C09/C11/C14; recorded in DESIGN.md 9.3, observations of round eight.) -/
 theorem handler_receives_every_key (k : BKind) (c : Cfg) (out : Val) (vs : List Val) :
     ∀ r ∈ run k c out vs, ∀ s ∈ r.sends, ∀ (fs : List Filt) (key : String) (v : Val) (d' : Data),
       s.ev.filters = fs ++ [.set key v] → runFilters fs s.raw = some d' →
